@@ -485,6 +485,15 @@ def check(ctx):
     check_likelihood(ctx, 'StochasticTrajectoriesLikelihood', 'sd', True)
     check_init_species(ctx)
     check_evaluation(ctx)
+    # value = log-prior + cost and -inf outside the support: the prior sum and the rejection path (C16 R16.3 / R16.4) - re-emitted here
+    from ..core import SubCtx
+    from . import c16
+    sub = SubCtx(ctx)
+    cls = c16.find_class(sub)
+    c16.check_aggregation(sub, cls)
+    c16.check_rejection(sub)
+    for rule, key, ok, where, what, detail in sub.got:
+        ctx.ob('R15.5-prior-term', '%s/%s' % (rule, key), ok, where, what, detail)
     ctx.floor('R15.1-axis-alignment', 5)
     ctx.floor('R15.3-cost-formula', 2)
     ctx.floor('R15.5-function-of-theta', 4)
